@@ -18,6 +18,9 @@ Literal-statement carve-outs, stated here:
 -/
 import DSProofs.Lemmas.CpcCount
 import DSProofs.Lemmas.CpcUnionPerm
+import DSProofs.Lemmas.CpcLossless
+import DSProofs.Lemmas.CpcTablesOK
+import DSModel.Cpc.Wire
 import DSModel.Cpc.Input
 import DSModel.Cpc.Estimator
 namespace DS.Cpc
@@ -273,6 +276,80 @@ theorem cpc_union_perm_invariant (T : HipTables) (lgK0 : Nat) (inputs inputs' : 
     rw [hL]
     exact (hp.flatMap_right _).mem_iff
 
+/-! ## Compression
+
+`compress` / `uncompress` are the code's `cpc_compressor::compress` / `uncompress` (window bytes by 22 Huffman
+tables with 12-bit look-ahead; surprising values as sorted pairs: x-delta by the 65-symbol code, y-delta by Golomb
+coding; SLIDING rotates and permutes columns; HYBRID merges window bits into the pair list).  `TablesOK` is what the
+tables must satisfy; `gen_tables_ok` (Lemmas/CpcTablesOK.lean) discharges it for the tables generated from the
+current `compression_data.hpp` by kernel evaluation. -/
+
+/-- **Huffman byte code round trip** for any table that is a prefix code with lengths 1..12: decoding `n` symbols
+from the encoded stream followed by arbitrary bits returns the bytes. -/
+theorem cpc_byte_code_roundtrip (enc : Nat → Nat) (h : CodeOK enc 256) (bytes : List Nat) (hb : ∀ b ∈ bytes, b < 256)
+    (rest : Bits) :
+    decBytes (fun x => (decTable enc 256).getD x 0) bytes.length (encBytes enc bytes ++ rest) = bytes :=
+  decBytes_encBytes enc _ h (fun x hx => decTable_getD enc 256 x hx) bytes hb rest
+
+/-- **Pair code round trip** (x-delta symbol + unary/Golomb y-delta with any number of base bits) for every strictly
+increasing pair array, followed by arbitrary bits. -/
+theorem cpc_pair_code_roundtrip (enc65 : Nat → Nat) (h : CodeOK enc65 65) (B : Nat) (pairs : List Nat)
+    (hs : pairs.Pairwise (· < ·)) (rest : Bits) :
+    decPairs (fun x => (decTable enc65 65).getD x 0) B pairs.length 0 0 (encPairs enc65 B 0 0 pairs ++ rest) = pairs :=
+  decPairs_encPairs enc65 _ B h (fun x hx => decTable_getD enc65 65 x hx) pairs 0 0 (pairsOK_sorted pairs hs) rest
+
+/-- **Compression is lossless** (all four flavors and the empty sketch): for every valid sketch (`Inv`, e.g. any
+`run`, any union result) whose offset is `determine_correct_offset` (always, below the saturation bound of the
+header), `uncompress (compress s)` returns exactly the surprising-value table and the window; together with
+`lg_k`, `C`, `first_interesting_column` and the HIP registers, which the image stores verbatim, and the offset,
+which `deserialize` recomputes as `determine_correct_offset(lg_k, C)`, this is the whole state. -/
+theorem cpc_compress_lossless (C : CompTables) (hC : TablesOK C) (s : Sketch) (xs : List Nat) (h : Inv s xs)
+    (hv : ∀ x ∈ xs, x < 64 * 2^s.lgK) (hoff : s.offset = determineCorrectOffset s.lgK s.numCoupons) :
+    uncompress C (compress C s) s.lgK s.numCoupons = (s.table, s.window) :=
+  compress_lossless C hC s xs h hv hoff
+
+/-- the same for the tables of the current headers and every update history, unconditionally below saturation -/
+theorem cpc_compress_lossless_run (T : HipTables) (lgK : Nat) (rcs : List Nat) (h : ∀ rc ∈ rcs, rc < 64 * 2^lgK)
+    (hb : 8 * (run T lgK rcs).numCoupons < 475 * 2^lgK) :
+    uncompress genComp (compress genComp (run T lgK rcs)) lgK (run T lgK rcs).numCoupons
+      = ((run T lgK rcs).table, (run T lgK rcs).window) := by
+  have hi := inv_run T lgK rcs h
+  have hl := run_lgK T lgK rcs
+  have := cpc_compress_lossless genComp gen_tables_ok (run T lgK rcs) rcs hi (by rw [hl]; exact h)
+    (by rw [hl]; exact cpc_no_saturation T lgK rcs h hb)
+  rwa [hl] at this
+
+/-! ### The serialized image (partial)
+
+`serializeCore` / `deserializeCore` (DSModel/Cpc/Wire.lean) add the preamble around `compress` / `uncompress`.
+The full statement `cpc_image_lossless_full` says that the image gives back the whole state including the two HIP
+registers.  It is FALSE for the current code: an empty image stores no registers and `deserialize` starts the
+rebuilt sketch with `kxp = 0` instead of `k` (finding `deserialized-empty-sketch-estimator-state-lost`, replayed on
+the implementation by the check; proposed fix in proposed_fixes/).  Proved: `cpc_image_lossless_full_false` (the
+witness) and the compress-level theorem above; the byte layout of the preamble (field order, little-endian words)
+is tied by correspondence only (model bytes == implementation bytes on every generated history) and by C09/C10. -/
+
+def genWire : WireConsts :=
+  { serialVersion := DSGen.cpc_SERIAL_VERSION, family := DSGen.cpc_FAMILY, flagCompressed := DSGen.cpc_FLAG_IS_COMPRESSED,
+    flagHip := DSGen.cpc_FLAG_HAS_HIP, flagTable := DSGen.cpc_FLAG_HAS_TABLE, flagWindow := DSGen.cpc_FLAG_HAS_WINDOW }
+
+def cpc_image_lossless_full : Prop :=
+  ∀ (seedHash : Nat) (s : Sketch) (xs : List Nat) (hb : HipBits) (ofBits : Nat → Float),
+    seedHash < 65536 → Inv s xs → (∀ x ∈ xs, x < 64 * 2^s.lgK) → s.lgK < 256 →
+    s.offset = determineCorrectOffset s.lgK s.numCoupons → s.merged = false →
+    ∃ s', deserializeCore genWire genComp seedHash (serializeCore genWire genComp seedHash s hb) ofBits = some (s', hb) ∧
+      sameContent s' s
+
+/-- the image of a new (empty) sketch with `kxp = 16.0` comes back with `kxp = 0` -/
+theorem cpc_image_lossless_full_false : ¬ cpc_image_lossless_full := by
+  intro h
+  obtain ⟨s', h1, _⟩ := h 37836 (fresh 4) [] ⟨0x4030000000000000, 0⟩ (fun _ => 0.0) (by decide) (inv_fresh 4) (by simp)
+    (by decide) (by decide) rfl
+  have h2 : (deserializeCore genWire genComp 37836 (serializeCore genWire genComp 37836 (fresh 4) ⟨0x4030000000000000, 0⟩)
+      (fun _ => 0.0)).map Prod.snd = some ⟨0, 0⟩ := by decide +kernel
+  rw [h1] at h2
+  simp at h2
+
 /-! Non-vacuity: a concrete stream on lg_k = 4 that passes through SPARSE → HYBRID (promotion at C = 2) with
 duplicates, coupons below / inside / above the window. -/
 def exT : HipTables := { invPow2 := fun _ => 0.0, kxpByte := fun _ => 0.0 }
@@ -298,5 +375,18 @@ example : unionLgK 7 (exInputs.map Prod.fst) = 4 ∧
     (getResult (unionRun exT 7 (exInputs.map Prod.fst))).window ≠ [] ∧
     (getResult (unionRun exT 7 (exInputs.reverse.map Prod.fst))).table = (getResult (unionRun exT 7 (exInputs.map Prod.fst))).table := by
   decide +kernel
+
+/-! Non-vacuity for compression: the HYBRID example sketch above, and a SLIDING sketch (66 coupons on lg_k 4:
+columns 0..3 of every row plus two surprising values, offset 1) meet the hypotheses of `cpc_compress_lossless_run`. -/
+def exSliding : List Nat := (List.range 64).map (fun i => (i / 4) * 64 + i % 4) ++ [5 * 64 + 17, 9 * 64 + 40]
+example : determineFlavor 4 (run exT 4 exStream).numCoupons = .hybrid ∧ 8 * (run exT 4 exStream).numCoupons < 475 * 2^4 := by
+  decide +kernel
+example : (∀ rc ∈ exSliding, rc < 64 * 2^4) ∧ determineFlavor 4 (run exT 4 exSliding).numCoupons = .sliding ∧
+    (run exT 4 exSliding).offset = 1 ∧ (run exT 4 exSliding).table = [5 * 64 + 17, 9 * 64 + 40] ∧
+    8 * (run exT 4 exSliding).numCoupons < 475 * 2^4 := by
+  decide +kernel
+example : uncompress genComp (compress genComp (run exT 4 exSliding)) 4 (run exT 4 exSliding).numCoupons
+    = ((run exT 4 exSliding).table, (run exT 4 exSliding).window) :=
+  cpc_compress_lossless_run exT 4 exSliding (by decide +kernel) (by decide +kernel)
 
 end DS.Cpc
